@@ -81,6 +81,10 @@ def run(tier):
             # the same through the pinned open path (type and the file's own stored checksum pinned)
             scripts.append((name, "scan", a, min(hl, a + step), "case %s-pscan-%d 600\nhdrscan file:%s %d %d pin %d %d %d\nend\n" %
                             (name, a, path, a, min(hl, a + step), h.hash_type, h.digest_loc, ref.DIGEST_SIZE[h.hash_type])))
+        # the pinned path with the digest the caller authenticated (the ORIGINAL file's) over the lead - where the stored checksum
+        # itself lies: a candidate whose stored checksum was altered is not the authenticated header
+        scripts.append((name, "scan", 0, h.lead_size, "case %s-qscan-0 600\nhdrscan file:%s %d %d pinorig %d %d %d\nend\n" %
+                        (name, path, 0, h.lead_size, h.hash_type, h.digest_loc, ref.DIGEST_SIZE[h.hash_type])))
         # the same where the context has already read the lead of the UNMODIFIED bytes (as a downloader that looks at the lead,
         # fetches the rest and reads the lead again does): what counts is the bytes now there.  Quick: the lead of every
         # file and the whole header of every third one
@@ -180,11 +184,13 @@ def run(tier):
                     hh = ref.parse_header(bytes(mb))
                     if hh.sealed and hh.ok:
                         sealed_vals.append(v)
-                pinargs = script.split("\n")[1].split(" pin ")[1] if " pin " in script else None
+                l1 = script.split("\n")[1]
+                pinargs = l1.split(" pin ")[1] if " pin " in l1 else (l1.split(" pinorig ")[1] if " pinorig " in l1 else None)
+                pinword = " pinorig " if " pinorig " in l1 else " pin "
                 relead = script.split("\n")[1].endswith(" relead")
                 preopt = (" preopt " + script.split("\n")[1].split(" preopt ")[1]) if " preopt " in script else (" retry" if script.split("\n")[1].endswith(" retry") else "")
                 trace.append({"op": "hdrmut", "file": name, "pos": p, "pinned": pinargs is not None, "relead": relead, "accepted": acc.get(p, []), "sealedVals": sealed_vals})
-                owner.append("case x 600\nhdrscan file:%s %d %d%s\nend\n" % (os.path.join(common.REPLAY, "C06-%s.zck" % name), p, p + 1, (" pin " + pinargs) if pinargs else (" relead" if relead else preopt)))
+                owner.append("case x 600\nhdrscan file:%s %d %d%s\nend\n" % (os.path.join(common.REPLAY, "C06-%s.zck" % name), p, p + 1, (pinword + pinargs) if pinargs else (" relead" if relead else preopt)))
                 ck.case((name, p, pinargs is not None, relead, preopt))
                 ck.evaluations += 254
         else:
